@@ -504,6 +504,18 @@ func c06Fin(end string) string {
 	return "FinOther"
 }
 
+// c06CarrierCoq renders what Panic.Value was found to carry: None, or Some (layers of reflect.Value, kind).
+func c06CarrierCoq(o c06ChildOut) string {
+	if !o.IsPanicErr {
+		return "None"
+	}
+	k := map[string]string{"int": "VkInt", "str": "VkStr", "err": "VkErr", "fault": "VkFault"}[o.VKind]
+	if k == "" {
+		k = "VkOther"
+	}
+	return fmt.Sprintf("(Some (%d, %s))", o.Wraps, k)
+}
+
 func c06CanonEnd(end string) string {
 	if strings.HasPrefix(end, "panic:value:") {
 		return "panic:" + c06Shown(strings.TrimPrefix(end, "panic:value:"))
@@ -604,8 +616,8 @@ func runC06(args []string) error {
 		if c.Region != "" {
 			reg = "true"
 		}
-		rows = append(rows, fmt.Sprintf("(%d%%N, %s,\n  %s,\n  (%s, %s),\n  (%s, %s))", c.ID, reg, c.Prog.coq(),
-			c06Events(implO.Stdout), c06Fin(implO.End), c06Events(c.Ref.Stdout), c06Fin(c.Ref.End)))
+		rows = append(rows, fmt.Sprintf("(%d%%N, %s,\n  %s,\n  (%s, %s, %s),\n  (%s, %s))", c.ID, reg, c.Prog.coq(),
+			c06Events(implO.Stdout), c06Fin(implO.End), c06CarrierCoq(c.Impl), c06Events(c.Ref.Stdout), c06Fin(c.Ref.End)))
 	}
 
 	hdr := "From Verif Require Import Defer.Model Defer.Cases.\nImport ListNotations.\nOpen Scope list_scope.\n"
